@@ -585,6 +585,10 @@ func (x *Exec) toIface(v AV, T types.Type, h *Heap) AV {
 			out.agg = v.agg
 		} else {
 			out.atoms = AStruct
+			if x.libMethodType(T) {
+				out.agg = v.agg
+				out.dyn = T
+			}
 		}
 	case 'P':
 		if pt, ok := T.Underlying().(*types.Pointer); ok && types.Identical(pt.Elem(), x.c.A.InterpT) {
@@ -595,6 +599,9 @@ func (x *Exec) toIface(v AV, T types.Type, h *Heap) AV {
 			}
 			if v.tri&2 != 0 || v.tri == 0 {
 				out.atoms |= APtr
+			}
+			if x.libMethodType(T) {
+				out.dyn = T
 			}
 		}
 		out.obj = v.obj
@@ -1616,4 +1623,23 @@ func (x *Exec) lookup(in *ssa.Lookup, fr *frame, h *Heap) {
 	} else {
 		fr.vals[in] = res
 	}
+}
+
+// libMethodType: a named type of the analysed packages (or a pointer to one)
+// that has methods: a value boxed from it can be the receiver of an interface
+// method call that is resolved to the library's own method.
+func (x *Exec) libMethodType(T types.Type) bool {
+	t := T
+	if pt, ok := t.(*types.Pointer); ok {
+		t = pt.Elem()
+	}
+	n, ok := t.(*types.Named)
+	if !ok || n.Obj().Pkg() == nil {
+		return false
+	}
+	pk := n.Obj().Pkg()
+	if (x.c.SLib == nil || pk != x.c.SLib.Pkg) && (x.c.SCLI == nil || pk != x.c.SCLI.Pkg) {
+		return false
+	}
+	return x.c.Prog.MethodSets.MethodSet(T).Len() > 0
 }
